@@ -21,6 +21,7 @@ NewCmds(S) == IF S = {} THEN << >> ELSE LET c == CHOOSE x \in S : TRUE IN << New
 CmdOf(o, k) ==
     CASE o.op = "process" -> [op |-> "process", ctx |-> o.c, p |-> o.p, rbuf_len |-> 64 + (k % 3), poison |-> (k * 37 + 90) % 256]
       [] o.op = "decode"  -> [op |-> "decode", ctx |-> o.c, p |-> o.p]
+      [] o.op = "get_length" -> [op |-> "get_length", ctx |-> o.c, p |-> o.p]
       [] o.op = "set_eid_req"  -> [op |-> "set_eid", ctx |-> o.c, half |-> "req", eid |-> o.arg]
       [] o.op = "set_eid_resp" -> [op |-> "set_eid", ctx |-> o.c, half |-> "resp", eid |-> o.arg]
       [] o.op = "set_uuid" -> [op |-> "set_uuid", ctx |-> o.c, uuid |-> o.arg]
